@@ -1247,3 +1247,114 @@ class Observe:
             return res(NOOP)
         observe_all_paths(run, m, "observe")
         return res(OK)
+
+
+# ------------------------------------------------------------------------------------------
+# refused link operations (C05): wrong kind, foreign block (with / without a local namesake)
+# ------------------------------------------------------------------------------------------
+@op("refused_link")
+class RefusedLink:
+    CASES = ("wrong_kind", "foreign", "foreign_same_name", "not_entity", "role_foreign", "role_foreign_same_name",
+             "feature_foreign", "feature_foreign_same_name")
+
+    def gen(self, run, rng):
+        if not run.enum("block"):
+            return None
+        case = P.pick(rng, [c for c in self.CASES if not run.profile.masked("link_" + c)])
+        okinds = [k for k in LINKLISTS if run.enum(k)]
+        if not okinds:
+            return None
+        ok = P.pick(rng, okinds)
+        return {"op": "refused_link", "case": case, "okind": ok, "o": idx(rng),
+                "list": rng.randrange(len(LINKLISTS[ok])), "t": idx(rng), "via": gen_via(run, rng)}
+
+    def do(self, run, o):
+        case = o["case"]
+        mf = run.fstate().model
+        if case.startswith("role") or case.startswith("feature"):
+            return self._role(run, o, mf)
+        owner = run.pick(o["okind"], o["o"])
+        if owner is None:
+            return res(NOOP)
+        attr, tkind = LINKLISTS[o["okind"]][o["list"] % len(LINKLISTS[o["okind"]])]
+        blk = block_of(owner)
+        oh = run.R(owner, o.get("via", 0))
+        lst = getattr(oh, attr)
+        before = K._reflist(oh, attr)
+        if case == "wrong_kind":
+            others = [k for k in ("array", "tag", "mtag", "source", "group", "section") if k != tkind
+                      and not (k == "frame")]
+            cands = []
+            for k in others:
+                cands.extend(run.enum(k))
+            if not cands:
+                return res(NOOP)
+            t = cands[o["t"] % len(cands)]
+            arg = run.R(t, 0)
+            allowed = (TypeError, RuntimeError)
+        elif case == "not_entity":
+            arg = [42, 3.5, "not-an-id", None, ["x"]][o["t"] % 5]
+            allowed = None
+        else:
+            # entity of the right kind that lives in another block
+            cands = []
+            for b in mf.blocks:
+                if b is blk:
+                    continue
+                if tkind == "source":
+                    cands.extend(mf.all_sources([b]))
+                else:
+                    cands.extend(getattr(b, BLOCK_CONT[tkind]))
+            local = link_candidates(run, owner, tkind)
+            lnames = set(x.name for x in local) if tkind != "source" else set(x.name for x in blk.sources)
+            if case == "foreign_same_name":
+                cands = [c for c in cands if c.name in lnames]
+            else:
+                cands = [c for c in cands if c.name not in lnames]
+            if not cands:
+                return res(NOOP)
+            t = cands[o["t"] % len(cands)]
+            arg = run.R(t, 0)
+            allowed = None
+        r = run.call(lambda: lst.append(arg))
+        run.expect_refused(r, "refused_link_" + attr, case, allowed=allowed)
+        after = K._reflist(run.R(owner, 0), attr)
+        d = K.deep_diff(before, after)
+        if d is not None:
+            run.violation("refused_changed_list", "refused_link_" + attr, case, "list changed: %s -> %s" % (d[1], d[2]))
+        run.stats["refused_link:" + case] += 1
+        return res(REFUSED)
+
+    def _role(self, run, o, mf):
+        case = o["case"]
+        same = case.endswith("same_name")
+        if case.startswith("feature"):
+            owners = run.enum("feature")
+            attr = "data"
+        else:
+            owners = run.enum("mtag")
+            attr = ("positions", "extents")[o["list"] % 2]
+        if not owners:
+            return res(NOOP)
+        owner = owners[o["o"] % len(owners)]
+        blk = block_of(owner.parent_) if case.startswith("feature") else owner.parent_
+        lnames = set(x.name for x in blk.data_arrays)
+        cands = []
+        for b in mf.blocks:
+            if b is not blk:
+                cands.extend(a for a in b.data_arrays if (a.name in lnames) == same)
+        if not cands:
+            return res(NOOP)
+        t = cands[o["t"] % len(cands)]
+        oh = run.R(owner, o.get("via", 0))
+        th = run.R(t, 0)
+        before = K._role(oh, attr, False) if attr != "data" else K.walk_feature(oh)
+        r = run.call(lambda: setattr(oh, attr, th))
+        run.expect_refused(r, "refused_link_" + attr, case)
+        oh2 = run.R(owner, 0)
+        after = K._role(oh2, attr, False) if attr != "data" else K.walk_feature(oh2)
+        d = K.deep_diff(before, after)
+        if d is not None:
+            run.violation("refused_changed_list", "refused_link_" + attr, case, "link changed: %s -> %s" % (d[1], d[2]))
+        run.stats["refused_link:" + case] += 1
+        return res(REFUSED)
